@@ -2,7 +2,7 @@
    Only the property theorems (each closed by `exact <lemma>`), Print Assumptions, and
    non-vacuity Examples.  Model: C05/Model.v (tied to distsys/tla/value.go, vclock.go and
    distsys/hashmap/hashmap.go by the correspondence check, ./check C05). *)
-From PGV Require Import Base.Value Base.ValueFacts C05.Model C05.Proofs.
+From PGV Require Import Base.Value Base.ValueFacts C05.Model C05.Proofs C05.ProofsPrint.
 Open Scope N_scope.
 
 (* (1) Equality is exactly equality of the denoted TLA+ values: for every two representations
@@ -55,6 +55,51 @@ Theorem HashC_transparent : forall c, HashC c = Hash (strip c).
 Proof. exact HashC_transparent_lemma. Qed.
 Print Assumptions HashC_transparent.
 
+(* the constructors establish the invariant and denote the set of their arguments *)
+Theorem MakeSet_establishes_rep_ok : forall xs, (forall y, In y xs -> rep_ok y) ->
+  rep_ok (MakeSet xs) /\ canon (MakeSet xs) = canon (VSet xs).
+Proof. exact MakeSet_ok. Qed.
+Print Assumptions MakeSet_establishes_rep_ok.
+
+(* (4) gob: a value (with causal wrappers and their vector clocks at any depth) written by a gob
+   encoder and read back by a gob decoder is the same value: Equal, same denotation, same clocks.
+   encoding/gob itself is the hypothesis de (ser l) = Some l about an abstract byte type: what an
+   Encoder wrote (a sequence of interface values of registered types, GobEncoder byte slices,
+   RecordField structs, ints), a Decoder reads back. *)
+Theorem gob_roundtrip :
+  forall (bytes : Type) (ser : list (@gitem bytes) -> bytes) (de : bytes -> option (list (@gitem bytes))),
+  (forall l, de (ser l) = Some l) ->
+  forall c, cokb c = true ->
+  exists c', dec_value de (cdepth c) (enc_value ser c) = Some c' /\ c' = c /\
+             canon (strip c') = canon (strip c) /\ EqualC c c' = Equal (strip c) (strip c).
+Proof. exact (@gob_roundtrip_lemma). Qed.
+Print Assumptions gob_roundtrip.
+
+Theorem cok_rep_ok : forall c, cokb c = true -> rep_ok (strip c).
+Proof. intros c H. apply rep_okb_spec, cokb_rep_ok, H. Qed.
+Print Assumptions cok_rep_ok.
+
+(* (5) String(): the printed form is the rendering of a token sequence that the recursive-descent
+   parser for TLA+ constant expressions reads back to exactly the value (any depth, any strings).
+   The byte-level statement composes this with the lexer; that the lexer recovers the tokens of
+   every printed form is not proved in general (print_parse_partial is conditional on it) — it is
+   evaluated by the correspondence check on every case (check 8). *)
+Definition print_parse_full_statement : Prop :=
+  forall v, printable_val v = true -> exists v', parse (print v) = Some v' /\ canon v' = canon v.
+
+Theorem print_is_rendered_tokens : forall v, print v = render (print_tokens v).
+Proof. exact print_render. Qed.
+Print Assumptions print_is_rendered_tokens.
+
+Theorem parse_print_tokens : forall v, parse_tokens (print_tokens v) = Some v.
+Proof. exact parse_print_tokens_lemma. Qed.
+Print Assumptions parse_print_tokens.
+
+Theorem print_parse_partial : forall v,
+  lex (S (List.length (print v))) (print v) = Some (print_tokens v) -> parse (print v) = Some v.
+Proof. exact print_parse_partial_lemma. Qed.
+Print Assumptions print_parse_partial.
+
 (* ---- non-vacuity ---- *)
 Definition ex_a : value :=
   VSet [VFun [(VStr [107], VTup [VNum 1; VDefault]); (VStr [118], VSet [VNum 2; VNum 3])];
@@ -86,4 +131,15 @@ Example c05_wrapped_nonvacuous :
   let w := CWrap [(CTup [CStr [65]; CNum 1], 2%Z)] CDefault in
   EqualC w w = true /\ EqualC w CDefault = true /\ EqualC CDefault w = true /\
   EqualC (CTup [w]) (CTup [CDefault]) = true /\ HashC w = 0.
+Proof. vm_compute. repeat split. Qed.
+
+Example c05_gob_nonvacuous :
+  let w := CSet [CWrap [(CTup [CStr [65]; CNum 1], 2%Z); (CTup [CStr [66]; CStr [120]], 1%Z)] (CTup [CDefault; CNum 7]);
+                 CFun [(CStr [107], CWrap [] (CSet [CNum 1; CNum 2]))]] in
+  cokb w = true /\ cdepth w = 5%nat.
+Proof. vm_compute. split; reflexivity. Qed.
+
+Example c05_print_nonvacuous :
+  parse (print ex_a) = Some ex_a /\ lex (S (List.length (print ex_a))) (print ex_a) = Some (print_tokens ex_a) /\
+  printable_val ex_a = true.
 Proof. vm_compute. repeat split. Qed.
